@@ -320,7 +320,9 @@ OnDone(m, o) ==
     ELSE
     LET n == OpName(t.op)
         acc == n \in {"resmut", "resset", "resno", "ins", "mut", "set", "noreact", "trig", "rm"}
-        m1 == Chk(m, t.ns = t.exp, IF acc THEN "C14" ELSE "C01", "op caused the wrong number of trigger dispatches")
+        m1a == Chk(m, t.ns = t.exp, IF acc THEN "C14" ELSE "C01", "op caused the wrong number of trigger dispatches")
+        m1 == IF t.ns # t.exp /\ n = "ins" /\ t.op[2] \notin m.aliveE
+              THEN V(m1a, "C18", "an insertion on a despawned entity dispatched a reaction") ELSE m1a
         left == OwedAt(m1, Len(m1.stack))
         m2 == IF Len(left) = 0 THEN m1
               ELSE V2([m1 EXCEPT !.owed = SelectSeq(@, LAMBDA x : x.lvl # Len(m1.stack))],
@@ -519,7 +521,11 @@ OnRun(m, o) ==
         m5 == IF surplus THEN V(m4, "C04", IF tainted THEN F1Why
                                            ELSE "a run saw event data that does not belong to it") ELSE m4
         m6a == IF bad /\ other THEN V(m5, "C12", IF tainted THEN F1Why ELSE "a run saw the data of another delivery from the same sender") ELSE m5
-        m6 == Chk(m6a, ~OlderPostponed(mS, t.k), "C12", IF tainted THEN F1Why ELSE "a delivery was processed before an earlier one from the same run to the same system")
+        late == OlderPostponed(mS, t.k)
+        lateWhy == IF tainted THEN F1Why ELSE "a delivery was processed before an earlier one from the same run to the same system"
+        m6b == IF late THEN V2(m6a, "C12", "C09", lateWhy) ELSE m6a
+        \* the exchange of data between two pending deliveries is only invisible while order is respected
+        m6 == IF late /\ swap THEN V(m6b, "C03", IF tainted THEN F1Why ELSE "a run showed the data of a later delivery of the same sender while the earlier one was still pending") ELSE m6b
         m7 == IF \E x \in Elems(o.view) : x[1] = "se2" THEN V(m6, "C04", "a system event was taken twice") ELSE m6
         \* entity world reactor: local data of the reacting entity
         isEW == m.neworld > 0 /\ o.sys = EWSys(m)
@@ -569,7 +575,9 @@ OnExit(m, o) ==
 OnGc(m, o) ==
     LET d == Elems(o.d)
         exp == m.doomed \cap m.alive
-        m1 == Chk(m, d \subseteq exp, "C07", "garbage collection despawned a reactor that still has a trigger (or is persistent)")
+        m1a == Chk(m, d \subseteq exp, "C07", "garbage collection despawned a reactor that still has a trigger (or is persistent)")
+        m1 == IF \E s \in (d \ exp) : s \in m.once /\ s \notin m.onceRan
+              THEN V(m1a, "C15", "a one-off reactor was despawned before any of its triggers fired") ELSE m1a
         m2 == Chk(m1, exp \subseteq d, "C07", "garbage collection missed a reactor whose last trigger is gone")
         m3 == Chk(m2, o.closed = 1, "C18", "garbage collection did not complete")
     IN [m3 EXCEPT !.alive = @ \ d, !.doomed = {}]
